@@ -379,6 +379,9 @@ func GenBankParser(state *pars.State, result *pars.Result) error {
 
 	locus := string(result.Children[1].Token)
 	length := result.Children[2].Value.(int)
+	if length < 0 {
+		return pars.NewError("negative sequence length", state.Position())
+	}
 	molecule, err := gts.AsMolecule(string(result.Children[3].Token))
 	if err != nil {
 		return pars.NewError(err.Error(), state.Position())
